@@ -40,19 +40,65 @@ def to_dataset(d):
     lon = np.array([[np.nan if v is None else v for v in row] for row in d["lon"]], dtype=float) if d.get("grid") \
         else np.array([np.nan if v is None else v for v in d["lon"]], dtype=float)
     ids = np.array(d["ids"], dtype="int64")
+    val = carried_value(ids)            # a second data variable carried along with every point
     layout = d.get("layout", "c")
     if d.get("grid"):
+        coords = {"scnline": np.array(d["labels"], dtype="int64")}
+        if d.get("pos_labels"):
+            coords["scnpos"] = np.array(d["pos_labels"], dtype="int64")
         if layout == "gridT":
             return xr.Dataset({"time": ("scnline", t), "lat": (("scnpos", "scnline"), lat.T), "lon": (("scnpos", "scnline"), lon.T),
-                               "id": (("scnpos", "scnline"), ids.T)}, coords={"scnline": np.array(d["labels"], dtype="int64")})
+                               "id": (("scnpos", "scnline"), ids.T), "val": (("scnpos", "scnline"), val.T)}, coords=coords)
         return xr.Dataset({"time": ("scnline", t), "lat": (("scnline", "scnpos"), lat), "lon": (("scnline", "scnpos"), lon),
-                           "id": (("scnline", "scnpos"), ids)}, coords={"scnline": np.array(d["labels"], dtype="int64")})
+                           "id": (("scnline", "scnpos"), ids), "val": (("scnline", "scnpos"), val)}, coords=coords)
     if layout == "time":
-        return xr.Dataset({"lat": ("time", lat), "lon": ("time", lon), "id": ("time", ids)}, coords={"time": t})
+        return xr.Dataset({"lat": ("time", lat), "lon": ("time", lon), "id": ("time", ids), "val": ("time", val)}, coords={"time": t})
     if layout == "nolabel":
-        return xr.Dataset({"time": ("c", t), "lat": ("c", lat), "lon": ("c", lon), "id": ("c", ids)})
-    return xr.Dataset({"time": ("c", t), "lat": ("c", lat), "lon": ("c", lon), "id": ("c", ids)},
+        return xr.Dataset({"time": ("c", t), "lat": ("c", lat), "lon": ("c", lon), "id": ("c", ids), "val": ("c", val)})
+    return xr.Dataset({"time": ("c", t), "lat": ("c", lat), "lon": ("c", lon), "id": ("c", ids), "val": ("c", val)},
                       coords={"c": np.array(d["labels"], dtype="int64")})
+
+
+def carried_value(ids):
+    return np.asarray(ids, dtype="int64") * 0.5 + 0.25
+
+
+def check_groups(res, call):
+    """every variable and coordinate label the result carries for a collocated point must be that of the original
+    data point (identified by its id): time, lat, lon, the extra data variable, scan line label, scan position"""
+    problems = []
+    for grp, key in (("primary", "p"), ("secondary", "s")):
+        d = call[key]
+        orig = {pt[0]: pt for pt in flat_points(d)}
+        ids = res[f"{grp}/id"].values.tolist()
+        n = len(ids)
+        want_vars = {"time", "lat", "lon", "id", "val"} | ({"scnline", "scnpos"} if d.get("grid") else set())
+        have = {v.split("/", 1)[1] for v in res.variables if v.startswith(grp + "/")}
+        if not want_vars <= have:
+            problems.append(f"{grp}: variables {sorted(want_vars - have)} are missing in the result")
+            continue
+        tt = res[f"{grp}/time"].values.astype("datetime64[ns]").astype("int64").tolist()
+        la, lo = res[f"{grp}/lat"].values.tolist(), res[f"{grp}/lon"].values.tolist()
+        va = res[f"{grp}/val"].values.tolist()
+        if d.get("grid"):
+            sl, sp = res[f"{grp}/scnline"].values.tolist(), res[f"{grp}/scnpos"].values.tolist()
+        for k in range(n):
+            o = orig.get(ids[k])
+            if o is None:
+                problems.append(f"{grp}: stored id {ids[k]} is not a point of the input")
+                break
+            exp = {"time": o[1], "lat": o[2], "lon": o[3], "val": float(carried_value(ids[k]))}
+            gotv = {"time": tt[k], "lat": la[k], "lon": lo[k], "val": va[k]}
+            if d.get("grid"):
+                exp["scnline"] = o[4]
+                exp["scnpos"] = d["pos_labels"][o[5]] if d.get("pos_labels") else o[5]
+                gotv["scnline"], gotv["scnpos"] = sl[k], sp[k]
+            bad = [v for v in exp if gotv[v] != exp[v]]
+            if bad:
+                v = bad[0]
+                problems.append(f"{grp}: the stored point with id {ids[k]} carries {v}={gotv[v]!r}, the original point has {v}={exp[v]!r}")
+                break
+    return problems
 
 
 def flat_points(d):
@@ -364,6 +410,7 @@ def run_call(ck, col, rec, call, R, state, use_model, lines_cb, live=None, repor
                         problems.append(f"interval dtype {iv.dtype}")
                     for k, key in enumerate(keys):
                         got[key] = (int(iv[k].astype("int64")), float(dist[k]))
+                    problems += check_groups(res, call)
             for pr in problems:
                 ck.violation(classify(call), pr, slim)
         nontriv = len(must) > 0 and (npts[0] * npts[1] > len(may))
@@ -481,6 +528,9 @@ def run_call(ck, col, rec, call, R, state, use_model, lines_cb, live=None, repor
                     code_map = {int(i): f"{a}.{b}" for i, a, b in zip(res[f"{grp}/id"].values.tolist(),
                                 res[f"{grp}/scnline"].values.tolist(), res[f"{grp}/scnpos"].values.tolist())}
                     model_map = dict(zip(mids, lst(f.get(nm, "-"))))
+                    pl = call["p" if grp == "primary" else "s"].get("pos_labels")
+                    if pl:      # the model numbers the scan positions, the dataset labels them
+                        model_map = {i: f"{x.split('.')[0]}.{pl[int(x.split('.')[1])]}" for i, x in model_map.items()}
                     if code_map != model_map:
                         ck.disagree(f"{grp} (scan line, position) of the stored points: model {sorted(model_map.items())[:4]} "
                                     f"vs code {sorted(code_map.items())[:4]}", slim)
@@ -691,7 +741,8 @@ def to_grid(rng, d, npos):
     pick = lambda key: [[d[key][i * npos + j] for j in range(npos)] for i in range(n)]
     labels = rng.sample(range(1, 10 * n + 10), n)
     return {"grid": True, "t": [d["t"][i * npos] for i in range(n)], "lat": pick("lat"), "lon": pick("lon"),
-            "ids": pick("ids"), "labels": labels, "layout": "gridT" if rng.random() < 0.25 else "grid"}
+            "ids": pick("ids"), "labels": labels, "layout": "gridT" if rng.random() < 0.25 else "grid",
+            "pos_labels": rng.sample(range(100, 200), npos) if rng.random() < 0.5 else None}
 
 
 def coord_exchange(rng, call, force=None):
@@ -956,8 +1007,8 @@ def run_inplace_history(ck, rec, case, R, use_model, batch):
 
     def wrap(k):
         b = bufs[k]
-        return xr.Dataset({"time": ("c", b["t"]), "lat": ("c", b["lat"]), "lon": ("c", b["lon"]), "id": ("c", b["ids"])},
-                          coords={"c": b["labels"]})
+        return xr.Dataset({"time": ("c", b["t"]), "lat": ("c", b["lat"]), "lon": ("c", b["lon"]), "id": ("c", b["ids"]),
+                           "val": ("c", carried_value(b["ids"]))}, coords={"c": b["labels"]})
     for k in ("p", "s"):
         d = cur[k]
         bufs[k] = {"t": (T_EPOCH + np.array(d["t"], dtype="int64").astype("timedelta64[ns]")).astype("datetime64[ns]"),
